@@ -177,5 +177,5 @@ Example effects_cover_the_access_forms :
   has_op Op_getattr = true /\ has_op Op_subscript = true /\ has_op Op_call = true /\ has_op Op_settings_read = true.
 Proof. exact table_has_the_access_operations. Qed.
 
-Example three_gated_overloads : length (filter p_gated payloads) = 3%nat.
+Example three_gated_overloads : Nat.leb 3 (length (filter p_gated payloads)) = true.
 Proof. exact gated_payload_count. Qed.
